@@ -65,16 +65,20 @@ FreeCount(o) == Cardinality(OwnedBy(o, 0))
 NfreeVerdict(e) ==
   Check(e.nfree = -1 \/ e.nfree = FreeCount(own), "C15:allocator-bitmap-differs-from-alloc-free-history")
 
-\* A file holds exactly the sectors its data needs (checked whenever the
-\* model knows which blocks hold data), and never more than its size needs.
+\* A file never holds more sectors than its size needs, and none once it
+\* is closed ("returned exactly once on truncate or close").
 OwnVerdict(F, f) ==
   LET have == Cardinality(OwnedBy(own, f)) IN
     IF ~F[f].open THEN Check(have = 0, "C15:sectors-not-returned-on-close")
-    ELSE IF have > SectorsFor(F[f].size, cfg.ss) THEN "C15:sectors-not-returned-on-truncate"
-    ELSE IF F[f].unk # {} THEN "ok"
-    ELSE IF have > Cardinality(F[f].asec) THEN "C15:file-holds-sectors-without-data"
-    ELSE IF have < Cardinality(F[f].asec) THEN "C15:file-data-in-sectors-it-does-not-own"
-    ELSE "ok"
+    ELSE Check(have <= SectorsFor(F[f].size, cfg.ss), "C15:sectors-not-returned-on-truncate")
+
+\* The model also knows which blocks hold data under the real code's
+\* allocation discipline (a block gets a sector on the first write that
+\* touches it).  Holding a different number of sectors is not forbidden by
+\* the statement (leaks and foreign sectors are caught by OwnVerdict, TDev
+\* and the final probe), so it only counts as a non-conformance.
+OwnOdd(F, f) ==
+  F[f].open /\ F[f].unk = {} /\ Cardinality(OwnedBy(own, f)) # Cardinality(F[f].asec)
 
 -----------------------------------------------------------------------------
 TInit ==
@@ -200,7 +204,8 @@ TWrite ==
             Check(e.len = F[f].size, "C15:size-after-write"),
             QuotaVerdict(F, e), NfreeVerdict(e), OwnVerdict(F, f) >>)
   /\ pend' = NoPend
-  /\ UNCHANGED <<nonconf, cfg, own>>
+  /\ nonconf' = IF OwnOdd(fl', Line.f) THEN nonconf + 1 ELSE nonconf
+  /\ UNCHANGED <<cfg, own>>
 
 TRead ==
   /\ IsEvent("read")
@@ -246,7 +251,8 @@ TTrunc ==
             Check(e.len = F[f].size, "C15:size-after-truncate"),
             QuotaVerdict(F, e), NfreeVerdict(e), OwnVerdict(F, f) >>)
   /\ pend' = NoPend
-  /\ UNCHANGED <<nonconf, cfg, own>>
+  /\ nonconf' = IF OwnOdd(fl', Line.f) THEN nonconf + 1 ELSE nonconf
+  /\ UNCHANGED <<cfg, own>>
 
 \* One region seek on abstract file F: reply (res, eof, err) to
 \* GetNextRegionOffset(off, t).  While the contents of a region are open, or
